@@ -30,10 +30,11 @@ theorem expr_sound (e : CExpr) (C : List Instr) (K : List Val) (pos k : Nat) (st
   compile_correct e C K pos k stk g v g' h hp he
 
 /-- every terminating run (any fuel) of every program of the fragment — `let`, expression
-statements, blocks, `while` loops — is reproduced by the compiled code, from the empty stack
-back to the empty stack -/
-theorem compile_sound_core (fuel : Nat) (ss : List CStmt) (g g' : List Val) (he : evalP fuel g ss = some g') :
-    Steps (compileP 0 0 ss) (constsP ss) ⟨0, [], g⟩ ⟨bytes (compileP 0 0 ss), [], g'⟩ :=
+statements, blocks, `while` / `loop` with `break` / `continue` (plain and labelled), `if` with
+statement blocks — is reproduced by the compiled code, from the empty stack back to the empty
+stack (`.normal`: no `break` / `continue` escapes the program — the compiler rejects those) -/
+theorem compile_sound_core (fuel : Nat) (ss : List CStmt) (g g' : List Val) (he : evalP fuel g ss = some (g', .normal)) :
+    Steps (compileP 0 0 [] ss) (constsP ss) ⟨0, [], g⟩ ⟨bytes (compileP 0 0 [] ss), [], g'⟩ :=
   program_correct fuel ss g g' he
 
 /-- `a < b` evaluates `b` first: the globals `a` sees are those `b` left -/
@@ -61,15 +62,15 @@ theorem assign_value_stays (i : Nat) (e : CExpr) (g : List Val) (v : Val) (g1 : 
 
 /-- non-vacuity: `let x = 1 + 2 * 3; x = x - 1;` runs to globals `[6]` on the compiled code -/
 example : evalP 10 [.null] [.letG 0 (.bin .add (.lit (.int 1)) (.bin .mul (.lit (.int 2)) (.lit (.int 3)))),
-                         .expr (.gset 0 (.bin .sub (.gget 0) (.lit (.int 1))))] = some [.int 6] := by
+                         .expr (.gset 0 (.bin .sub (.gget 0) (.lit (.int 1))))] = some ([.int 6], .normal) := by
   rfl
 
 /-- non-vacuity with a loop: `let i = 0; let s = 0; while i < 3 { i = i + 1; { s = s + i; } }` ends with `[3, 6]` -/
 example : evalP 40 [.null, .null]
     [.letG 0 (.lit (.int 0)), .letG 1 (.lit (.int 0)),
-     .whileS (.lt (.gget 0) (.lit (.int 3)))
+     .whileS none (.lt (.gget 0) (.lit (.int 3)))
        [.expr (.gset 0 (.bin .add (.gget 0) (.lit (.int 1)))),
-        .block [.expr (.gset 1 (.bin .add (.gget 1) (.gget 0)))]]] = some [.int 3, .int 6] := by
+        .block [.expr (.gset 1 (.bin .add (.gget 1) (.gget 0)))]]] = some ([.int 3, .int 6], .normal) := by
   rfl
 
 end P2sh.Props.C02
